@@ -301,16 +301,13 @@ fn handle_xgroup_create(storage: &Arc<StorageEngine>, db: usize, parts: &[RespFr
         _ => false,
     };
     
-    // Get or create the stream
-    let stream = match storage.get(db, &key)? {
-        GetResult::Found(Value::Stream(stream)) => stream,
+    // Get the stream; with MKSTREAM a missing one is created below, once the ID is known to be valid
+    let existing = match storage.get(db, &key)? {
+        GetResult::Found(Value::Stream(stream)) => Some(stream),
         GetResult::Found(_) => return Ok(RespFrame::error("WRONGTYPE Operation against a key holding the wrong kind of value")),
         GetResult::NotFound | GetResult::Expired => {
             if mkstream {
-                // Create empty stream
-                let new_stream = Stream::new();
-                storage.set_value(db, key.clone(), Value::Stream(new_stream.clone()), None)?;
-                new_stream
+                None
             } else {
                 // Stream doesn't exist and MKSTREAM not specified
                 return Ok(RespFrame::error("ERR The XGROUP subcommand requires the key to exist"));
@@ -322,13 +319,23 @@ fn handle_xgroup_create(storage: &Arc<StorageEngine>, db: usize, parts: &[RespFr
     // Parse start ID
     let start_id = if id_str == "$" {
         // Use the stream's last ID (0-0 for a new stream)
-        stream.last_id()
+        existing.as_ref().map(|s| s.last_id()).unwrap_or(StreamId::new(0, 0))
     } else if id_str == "0" || id_str == "0-0" {
         StreamId::new(0, 0)
     } else {
         match StreamId::from_string(&id_str) {
             Some(id) => id,
             None => return Ok(RespFrame::error("ERR Invalid stream ID specified as stream command argument")),
+        }
+    };
+    
+    let stream = match existing {
+        Some(stream) => stream,
+        None => {
+            // Create empty stream
+            let new_stream = Stream::new();
+            storage.set_value(db, key.clone(), Value::Stream(new_stream.clone()), None)?;
+            new_stream
         }
     };
     
